@@ -26,11 +26,13 @@ def wallFold (op : α → α → α) (kv : V3 α → Elem α → α) (big : α) 
     (x : V3 α) : α :=
   ((allWalls twod dict w).map (kv x)).foldl op big
 
-/-- what a search has to do: succeed, and fold `op` over the kernel values of the chunk it was built from -/
+/-- what a search has to do on the chunks it is given: succeed, and fold `op` over the kernel values of the chunk it
+    was built from (on every rank `me`, for every chunk `c`) -/
 structure SearchFolds (search : Nat → Nat → List (Elem α) → Option (V3 α → α → α)) (op : α → α → α)
-    (kv : V3 α → Elem α → α) : Prop where
-  isSome : ∀ me c el, (search me c el).isSome = true
-  fold : ∀ me c el t, search me c el = some t → ∀ x d, t x d = (el.map (kv x)).foldl op d
+    (kv : V3 α → Elem α → α) (chunks : List (List (Elem α))) : Prop where
+  isSome : ∀ me c (h : c < chunks.length), (search me c chunks[c]).isSome = true
+  fold : ∀ me c (h : c < chunks.length) t, search me c chunks[c] = some t →
+    ∀ x d, t x d = (chunks[c].map (kv x)).foldl op d
 
 /-- the owned vertices of rank `me` -/
 def ownedOf (me : Nat) (r : PRank α) : List (PNode α) := r.nodes.filter fun nd => nd.part == (me : Int)
@@ -85,16 +87,17 @@ def treeOf (search : Nat → Nat → List (Elem α) → Option (V3 α → α →
   (search me c el).getD fun _ d => d
 
 theorem search_eq_treeOf {search : Nat → Nat → List (Elem α) → Option (V3 α → α → α)} {op : α → α → α}
-    {kv : V3 α → Elem α → α} (hs : SearchFolds search op kv) (me c : Nat) (el : List (Elem α)) :
-    search me c el = some (treeOf search me c el) := by
-  have := hs.isSome me c el
+    {kv : V3 α → Elem α → α} {chunks : List (List (Elem α))} (hs : SearchFolds search op kv chunks) (me c : Nat)
+    (hc : c < chunks.length) :
+    search me c chunks[c] = some (treeOf search me c chunks[c]) := by
+  have := hs.isSome me c hc
   unfold treeOf
-  cases h : search me c el with
+  cases h : search me c chunks[c] with
   | none => rw [h] at this; cases this
   | some t => rfl
 
 theorem buildTrees_eq {search : Nat → Nat → List (Elem α) → Option (V3 α → α → α)} {op : α → α → α}
-    {kv : V3 α → Elem α → α} (hs : SearchFolds search op kv) (np : Nat) (chunks : List (List (Elem α))) :
+    {kv : V3 α → Elem α → α} {chunks : List (List (Elem α))} (hs : SearchFolds search op kv chunks) (np : Nat) :
     buildTrees search np chunks
       = some ((List.range np).map fun me => chunks.mapIdx fun c el => treeOf search me c el) := by
   unfold buildTrees
@@ -108,7 +111,7 @@ theorem buildTrees_eq {search : Nat → Nat → List (Elem α) → Option (V3 α
       · simp
       · intro c h1 h2
         simp only [List.getElem_mapIdx]
-        exact search_eq_treeOf hs me c _
+        exact search_eq_treeOf hs me c (by simpa using h1)
     rw [this, allSome_map_some]
   have : ((List.range np).map fun me => allSome (chunks.mapIdx fun c el => search me c el))
       = ((List.range np).map fun me => chunks.mapIdx fun c el => treeOf search me c el).map some := by
@@ -120,8 +123,9 @@ theorem buildTrees_eq {search : Nat → Nat → List (Elem α) → Option (V3 α
 
 /-- on every rank, whatever its trees look like, a query ends with the fold over all wall elements -/
 theorem answer_eq {search : Nat → Nat → List (Elem α) → Option (V3 α → α → α)} {op : α → α → α}
-    {kv : V3 α → Elem α → α} (hs : SearchFolds search op kv) (big : α) (maxN : Int) (twod : Bool) (dict : RDict)
-    (w : World (PRank α)) (me : Nat) (x : V3 α) :
+    {kv : V3 α → Elem α → α} (big : α) (maxN : Int) (twod : Bool) (dict : RDict)
+    (w : World (PRank α)) (hs : SearchFolds search op kv (wallChunks maxN (w.map (localWall twod dict))))
+    (me : Nat) (x : V3 α) :
     answerOf ((wallChunks maxN (w.map (localWall twod dict))).mapIdx fun c el => treeOf search me c el) big x
       = wallFold op kv big twod dict w x := by
   unfold wallFold allWalls
@@ -130,7 +134,7 @@ theorem answer_eq {search : Nat → Nat → List (Elem α) → Option (V3 α →
   · simp
   · intro c h1 h2 y d
     simp only [List.getElem_mapIdx]
-    exact hs.fold me c _ _ (search_eq_treeOf hs me c _) y d
+    exact hs.fold me c h2 _ (search_eq_treeOf hs me c h2) y d
 
 /-! ## the world before the ghost update -/
 
@@ -194,8 +198,9 @@ theorem sum_le_of_mem {l : List Nat} {x : Nat} (h : x ∈ l) : x ≤ l.sum := by
 
 /-- everything up to the ghost update -/
 theorem wallDistParWith_unfold {search : Nat → Nat → List (Elem α) → Option (V3 α → α → α)} {op : α → α → α}
-    {kv : V3 α → Elem α → α} (hs : SearchFolds search op kv) (big : α) (maxN : Int) (twod : Bool) (dict : RDict)
-    (w : World (PRank α)) (hw : WorldOk w) :
+    {kv : V3 α → Elem α → α} (big : α) (maxN : Int) (twod : Bool) (dict : RDict)
+    (w : World (PRank α)) (hs : SearchFolds search op kv (wallChunks maxN (w.map (localWall twod dict))))
+    (hw : WorldOk w) :
     wallDistParWith search big maxN twod dict w
       = (ghost RefType.dbl 1 (gwOf (wallFold op kv big twod dict w) big w)).map fun g =>
           g.map fun nodes => nodes.map fun nd => nd.vals.getD 0 default := by
@@ -227,7 +232,7 @@ theorem wallDistParWith_unfold {search : Nat → Nat → List (Elem α) → Opti
         big x = wallFold op kv big twod dict w x := by
     intro me hme x
     rw [getD_lt _ _ (by simpa using hme), List.getElem_map, List.getElem_range]
-    exact answer_eq hs big maxN twod dict w me x
+    exact answer_eq big maxN twod dict w hs me x
   have hB : (List.mapIdx
         (fun me qs => List.map (fun x => answerOf
             ((List.map (fun me => List.mapIdx (fun c el => treeOf search me c el)
@@ -340,8 +345,9 @@ theorem getD_prank (w : World (PRank α)) (r : Nat) (hr : r < w.length) :
     rank and every stored vertex holds the fold of `op` over ALL wall elements of the world — evaluated at its own
     coordinates when it is owned, at its owner's copy when it is a ghost -/
 theorem wallDistParWith_spec {search : Nat → Nat → List (Elem α) → Option (V3 α → α → α)} {op : α → α → α}
-    {kv : V3 α → Elem α → α} (hs : SearchFolds search op kv) (big : α) (maxN : Int) (twod : Bool) (dict : RDict)
-    (w : World (PRank α)) (hw : WorldOk w) :
+    {kv : V3 α → Elem α → α} (big : α) (maxN : Int) (twod : Bool) (dict : RDict)
+    (w : World (PRank α)) (hs : SearchFolds search op kv (wallChunks maxN (w.map (localWall twod dict))))
+    (hw : WorldOk w) :
     ∃ res : World (List α), wallDistParWith search big maxN twod dict w = some res ∧ res.length = w.length ∧
       ∀ r (hr : r < w.length), (res.getD r []).length = w[r].nodes.length ∧
         ∀ i (hi : i < w[r].nodes.length),
@@ -398,7 +404,7 @@ theorem wallDistParWith_spec {search : Nat → Nat → List (Elem α) → Option
       simp only [Nat.max_self, Nat.cast_one, one_mul]
       omega
   have hg := Refine.Props.C06Ghost.ghostRefresh_spec RefType.dbl rfl 1 (gwOf W big w) hnd hown hsz
-  refine ⟨_, by rw [wallDistParWith_unfold hs big maxN twod dict w hw, hg]; rfl, by simp [gwOf], ?_⟩
+  refine ⟨_, by rw [wallDistParWith_unfold big maxN twod dict w hs hw, hg]; rfl, by simp [gwOf], ?_⟩
   intro r hr
   have hrg : r < (gwOf W big w).length := by rw [hglen]; exact hr
   have hrow : (List.map (fun nodes => List.map (fun nd => nd.vals.getD 0 default) nodes)
